@@ -13,7 +13,7 @@ SPEC = {
              "value-shape doubles; every result is compared with the model and judged by the theorem's predicate. Streams: "
              "field fidelity (unicode, control characters, empty, 64 KiB strings, integers at the 2^53 and int64 boundaries), "
              "every event sequence up to length 3 (thorough: 4) over an 8 (10) letter alphabet per backend, random "
-             "histories with exact Redis-clock boundaries, real-time histories with 150/250 ms ttls; non-trivial = at "
+             "histories with exact Redis-clock boundaries, real-time histories with 300/400 ms ttls probed at <= 0.5 ttl or >= 1.6 ttl; non-trivial = at "
              "least two events; distinct = distinct case strings"),
     "trusted_base": [
         "Lean 4.33 kernel; axioms propext, Classical.choice, Quot.sound only (audited per theorem on every run)",
@@ -28,6 +28,6 @@ SPEC = {
         "integers fit int64; when a backend returns map[string]interface{} they must be exactly representable as float64 (|n| <= 2^53)",
         "a tiered store without shared cache is a single-node deployment (records live in the node's own memory)",
         "a tunnel id waits on one node at a time (id uniqueness is C15); the spec follows the last registration of an id",
-        "timed cases whose real execution ran more than 30 ms behind model time on 6 attempts are dropped and counted in evidence",
+        "a run is judged only if, for every (registration, later lookup of the same id) pair, the measured real interval lies on the model's side of the ttl by max(25 ms, 20% ttl) on both sides; otherwise it is retried (5 attempts) and then dropped, counted as dropped_timing_unstable, never reported",
     ],
 }
